@@ -16,10 +16,14 @@ EXPLANATION = (
     "constructor: every arithmetic sink is proved unable to raise (evaluability for every argument); every density / "
     "probability is non-negative on every return path; outside the documented support (transcribed per class into the "
     "checker) every reachable return is exactly 0 (cumulative functions: 0 below, 1 above); the inverse functions guard "
-    "their domain (erf_inv's rational branches and the truncated-normal inverse). NOT decided -- and this is the core of "
-    "the property: that samples follow the density, that densities integrate to one, that cdf and inverse cdf are "
-    "monotone and mutually inverse to the documented accuracy; these are statements about numerical values that no "
-    "static argument in reach bounds.")
+    "their domain (erf_inv's rational branches and the truncated-normal inverse). For the three families that publish a "
+    "cumulative function (Normal, truncated Normal, LogNormal) two clauses of the statistical core are decided by exact "
+    "rational-function algebra over erf / erf_inv / exp / log / sqrt atoms with the constructor-defined fields "
+    "substituted: cumulative_probability and inverse_cumulative_probability are mutually inverse real functions on every "
+    "computed return path (R15.4), and the density is the derivative of the cumulative function (R15.5, symbolic "
+    "differentiation). NOT decided: that samples follow the density, that the densities without a published cdf "
+    "integrate to one, and the numerical accuracy of erf_inv; these are statements about numerical values that no static "
+    "argument in reach bounds.")
 
 FUNCS = ('probability_density', 'probability', 'cumulative_probability', 'cumulative_probability_not_truncated')
 
@@ -82,6 +86,7 @@ def run(ctx):
     r152(ctx, dists)
     r153(ctx)
     r154_inverse_pairs(ctx, dists)
+    r155_density_is_derivative(ctx, dists)
 
 
 def r152(ctx, dists):
@@ -226,3 +231,41 @@ def r154_inverse_pairs(ctx, dists):
                                 where=f'{inner_dc.name}.{inner.name}')
     ctx.floor('R15.4', 'cdf / inverse compositions decided', decided, 6)
     ctx.exhaustive['R15.4 computed return paths of every cdf/inverse pair'] = True
+
+
+def r155_density_is_derivative(ctx, dists):
+    """R15.5: d/dx cumulative_probability(x) == probability_density(x) on the computed return paths (exact symbolic differentiation)"""
+    from ..algebra import (Translator, Rat, p_atom, Unsupported, ctor_field_defs, computing_returns, path_env, positive_ctor_params, derivative)
+    prog = ctx.prog
+    ctx.rule('R15.5', 'the density is the derivative of the cumulative distribution function: d/dx cdf(x) - pdf(x) == 0 as an exact identity '
+                      '(symbolic differentiation with erf\' = 2/sqrt(pi)·exp(-z²), exp, log, sqrt; constructor-defined fields substituted)')
+    decided = 0
+    for c in dists:
+        dcf, cdf = prog.resolve(c, 'cumulative_probability')
+        dcp, pdf = prog.resolve(c, 'probability_density')
+        if cdf is None or pdf is None:
+            continue
+        crs, prs = computing_returns(cdf), computing_returns(pdf)
+        if len(crs) != 1 or len(prs) != 1:
+            continue
+        ctx.examined()
+        fdefs, params = ctor_field_defs(prog, c)
+        tr = Translator(prog, c, fdefs)
+        tr.set_ctor_params(params)
+        tr.positive = positive_ctor_params(prog, c)
+        x = Rat(p_atom('x'))
+        try:
+            ce = tr.expr(crs[0].value, path_env(tr, cdf, crs[0], {cdf.args.args[1].arg: x}, dcf.name), dcf.name)
+            pe = tr.expr(prs[0].value, path_env(tr, pdf, prs[0], {pdf.args.args[1].arg: x}, dcp.name), dcp.name)
+            d = derivative(tr, ce, 'x')
+            ok = d.equals(pe)
+        except Unsupported as e:
+            ctx.note(f'R15.5: {c} not expressible in the algebra ({e}); not decided')
+            continue
+        decided += 1
+        ctx.ob('R15.5', c, ok, sample=f'{c}: d/dx [{short(crs[0].value, 50)}] = {str(d)[:90]} ; pdf = {str(pe)[:90]}')
+        if not ok:
+            ctx.finding('R15.5', f'{c}.probability_density:derivative', dcp, prs[0],
+                        f'the density `{short(prs[0].value, 60)}` is not the derivative of the cumulative distribution function `{short(crs[0].value, 60)}`: '
+                        f'd/dx cdf = `{str(d)[:140]}` but pdf = `{str(pe)[:140]}` (density and cdf describe different distributions)', where=f'{dcp.name}.probability_density')
+    ctx.floor('R15.5', 'density / cdf pairs decided', decided, 3)
